@@ -11,10 +11,10 @@ CONSTANTS MaxSlots, Level    \* Level 1: core vocabulary, 2: everything
 
 Core == {"bs_n", "bs_1", "bs_g", "bs_d", "bs_end", "paren", "star", "md5_salt9", "md5_salt0", "md5_nohash",
          "j9_short", "j9_foreign", "j9_valid", "md5_emptysalt", "md5_emptysalt2", "md5_dollars", "j9_underscore", "j9_nonascii", "sha_longsalt", "sha_rounds_big", "fe80_pct", "fe80_1_pct", "brk_2000", "quote_10", "empty", "uni", "plainword", "num7",
-         "d1", "dx", "d6", "d_only", "two"}
+         "d1", "dx", "d6", "d_only", "two", "turkic_i"}
 More == {"bs_b", "class_open", "plusq", "dollar", "caret", "dotstar", "brace1", "pipe", "md5_salt10", "md5_only", "j9_trunc", "j9_magic",
          "sha_bare", "sha_rounds", "v6_tail3", "colons3", "dc2", "brk_1", "brk_10", "nest_1500", "ctrl0", "ctrl1f", "ls2028", "nbsp", "long5000",
-         "type7", "hexval", "v4addr", "v6addr", "asnum", "word", "d9", "one", "d1d", "dd"}
+         "type7", "hexval", "v4addr", "v6addr", "asnum", "word", "d9", "one", "d1d", "dd", "long_s"}
 Vocab == IF Level = 1 THEN Core ELSE Core \cup More
 Frames == {"none", "password", "key", "community", "enable-secret-5", "username", "encrypted-password", "set-community", "key-quoted", "psk-xml",
            "ppp-hostname", "tacacs-host-key", "snmp-user-auth", "syscon-address", "juniper-snmp-community"}   \* user text inside the kept prefix
